@@ -102,6 +102,18 @@ CLAIMED = {
         design='DESIGN.md §5 C04',
         note=NOTE_COMMON + 'Opaque overloads (prices, metadata) are sampled, not modelled. F-5 is a known finding.',
         technique='Lean 4 proof (progress/preservation + decide over generated registry) + type oracle over all overloads'),
+    'C05': dict(
+        text=('Lean theorems characterising each validation stage of the compile model rule by rule: target rule (no mixing, no '
+              'aggregate of aggregate) as an iff; operator / BETWEEN / target checks reject only with CompilationError unless '
+              'constant folding itself raised; parameter check (mixed kinds, wrong count, accepted forms; the only non-DB-API '
+              'outcome is the deliberate kind TypeError); GROUP BY key rule (valid index, non-aggregate, hashable); positional '
+              'ranges; coverage as an iff; PIVOT rule; implicit grouping. Tied to the code by the full operator x type and '
+              'function x type matrices generated from the registry (accept/reject of model vs compiler), one-rule-broken-at-a-'
+              'time statements with a rule-enforcement oracle, malformed / mutated texts, and an oracle that any exception other '
+              'than ParseError/CompilationError/ProgrammingError is a violation and error spans lie inside the text.'),
+        design='DESIGN.md §5 C05',
+        note=NOTE_COMMON + 'Known findings F-12 (parameter kind TypeError) and F-31 (scalar subselect AttributeError). Domain errors raised while folding constants belong to C18.',
+        technique='Lean 4 rule-by-rule proofs over the compile model + exhaustive type matrices + rule-enforcement oracle'),
 }
 
 PENDING_REASON = 'check under construction in this round (model or correspondence not yet registered); not claimed yet'
